@@ -76,3 +76,18 @@ def orderUT : SchemaDoc := doc (miniPrelude ++ [defI, defA, defU, defT])
 def orderTU : SchemaDoc := doc (miniPrelude ++ [defI, defA, defT, defU])
 
 end Gql.Examples
+
+namespace Gql.Examples
+open Gql
+
+/-- R7c: `enum E { __A }  type Query { e: E }` -/
+def r7cDoc : SchemaDoc :=
+  doc (miniPrelude ++ [ defn .enum "E" 1 (values := ["__A"]), defn .object "Query" 2 [fld "e" (ty "E")] ])
+
+/-- R7a: `interface I { f(a: String!): Int }  type T implements I { f(a: String): Int }` -/
+def r7aDoc : SchemaDoc :=
+  doc (miniPrelude ++
+    [ defn .interface "I" 1 [fld "f" (ty "Int") [arg "a" (ty "String" true)]],
+      defn .object "T" 2 [fld "f" (ty "Int") [arg "a" (ty "String")]] (interfaces := ["I"]) ])
+
+end Gql.Examples
